@@ -310,6 +310,33 @@ def check_outcome(cls, fam, kind, n, res):
                           "after the object was rendered as text", wit)
     except Exception:
         pass
+    # a response is a view of the frame it wraps: after the caller rewrote that frame in place every accessor reads the new byte
+    if kind == "clean" and n % 8 == 5:
+        n2 = n ^ 0x5A
+        res.hit("live_view_checked")
+        try:
+            rr = cls(frame.BackwardFrame(n))
+            for a_ in ("value", "status") + tuple(at for (ct, at) in DERIVED if ct == tag):
+                try:
+                    getattr(rr, a_)
+                except Exception:
+                    pass
+            str(rr)
+            rr.raw_value[7:0] = n2
+            fresh = cls(frame.BackwardFrame(n2))
+            for a_ in ("value", "status") + tuple(at for (ct, at) in DERIVED if ct == tag) + ("__str__",):
+                def rd(o):
+                    try:
+                        v_ = str(o) if a_ == "__str__" else getattr(o, a_)
+                        return ("ok", v_ if not isinstance(v_, frame.Frame) else ("frame", v_.as_integer))
+                    except Exception as e:
+                        return ("exc", type(e).__name__)
+                g1, g2 = rd(rr), rd(fresh)
+                if g1 != g2:
+                    bad(f"after its frame was rewritten from {n:#04x} to {n2:#04x}, {a_} still reads {g1[1]!r}; a fresh response on {n2:#04x} reads {g2[1]!r}")
+                    break
+        except Exception as e:
+            res.observe("live-view-probe-raised", f"{tag}: {type(e).__name__}")
     # text rendering is total w.r.t. MissingResponse / ResponseError
     res.hit("str_checked")
     try:
